@@ -84,6 +84,22 @@ def run(tier, seed, replay):
     wt4 = [p for p in paths4 if any(graph4.edges[i][1]["n"] == "TimerFire" for i in p)][:16 if not big else 200]
     n4, s4, d4 = udprelay.replay(v, binary, [graph4.behaviour(p) for p in wt4], [{"server": "socks5", "batchMode": "sendmmsg", "natTimeout": "2s"}], seed, "eviction replay")
     n3, s3, d3 = n3 + n4, s3 + s4, max(d3, d4)
+    # (4) churn: sessions expiring and restarting under continuous traffic, hook points inside the receive loop's critical
+    #     section and after cleanup sleeping at random (real scheduling); a crash of the relay process is a violation
+    churn_in = [{"seed": seed * 100 + i, "params": {"variant": {"server": "socks5", "batchMode": bm, "natTimeout": "40ms"}, "seconds": 4 if not big else 20}}
+                for i, bm in enumerate(["no", "sendmmsg", "no", "sendmmsg"] * (1 if not big else 3))]
+    nch = 0
+    for res, out, rc in common.run_parallel(binary, "TestChurn", churn_in, 900):
+        if res is None:
+            if "panic:" in out or "fatal error:" in out:
+                m = vlib.re.search(r"(panic: [^\n]*|fatal error: [^\n]*)", out)
+                v.violation("relay.lifecycle/panic", "the relay process crashed while sessions expired and restarted under traffic: " + (m.group(1) if m else ""),
+                            {"output": out[-3000:]})
+                continue
+            raise vlib.Broken("churn driver wrote no result (rc=%s):\n%s" % (rc, out[-2000:]))
+        res = common.absorb(v, res, out, rc, "session churn")
+        nch += res["counters"].get("churn_sessions", 0)
+    v.coverage["churn_sessions"] = nch
     v.coverage["traces_validated_against_impl"] = n1 + n3
     v.coverage["replayed_steps"] = s1 + s3
     v.coverage["eviction_behaviours"] = n3
